@@ -18,7 +18,7 @@ type snapshot struct {
 	parent *ucfg.Config
 	tree   interface{}
 	keys   []string
-	ref    string
+	ref    uint64
 	refErr bool
 }
 
@@ -28,7 +28,7 @@ func snap(c *ucfg.Config, opts ...ucfg.Option) snapshot {
 	s.parent = c.Parent()
 	s.tree, _ = unpackTree(c, opts...)
 	s.keys = c.FlattenedKeys(opts...)
-	v, err := c.String("r", -1, opts...)
+	v, err := c.Uint("r", -1, opts...)
 	s.ref, s.refErr = v, err != nil
 	return s
 }
